@@ -226,6 +226,7 @@ pub struct BuiltTable {
     pub ds: lance::Dataset,
     pub model: Model,
     pub desc: String,
+    pub version: LanceFileVersion,
 }
 
 /// Random table written to memory://, optionally with deleted rows.
@@ -235,15 +236,24 @@ pub async fn build_table(
     pool: &[ColTy],
     max_rows: usize,
     versions: &[LanceFileVersion],
+    legacy_nulls: bool,
 ) -> Result<BuiltTable, String> {
     let ncols = rng.urange(2, 6);
-    let spec = random_spec(rng, pool, ncols);
+    let mut spec = random_spec(rng, pool, ncols);
+    let version = *rng.pick(versions);
+    if version == LanceFileVersion::Legacy && !legacy_nulls {
+        // NULL handling of the legacy format (NULLs of fixed-width columns are stored as 0, and the
+        // pushdown scan of nullable strings) is examined by C29; C16 uses legacy tables only to
+        // reach the pushdown-scan path with NOT NULL data.
+        for c in spec.cols.iter_mut() {
+            c.nullable = false;
+        }
+    }
     let nfrag = rng.urange(1, 4);
     let total = rng.urange(10, max_rows);
     let mut ids = IdAlloc::new(0);
     let mut model = Model::new(&spec);
     let mut frags = vec![];
-    let version = *rng.pick(versions);
     for f in 0..nfrag {
         let n = if f + 1 == nfrag { (total / nfrag).max(1) + total % nfrag } else { (total / nfrag).max(1) };
         let mut b = spec.batch(rng, &ids.take(n));
@@ -288,14 +298,37 @@ pub async fn build_table(
         model.rows = stored;
     }
     let desc = format!(
-        "rows={} frags={} deleted={} v={} [{}]",
+        "rows={} frags={} deleted={} v={} mrpf={:?} mrpg={:?} [{}]",
         model.len(),
         ds.get_fragments().len(),
         deleted,
         storage_version_name(version),
+        max_rows_per_file,
+        max_rows_per_group,
         spec.describe()
     );
-    Ok(BuiltTable { ds, model, desc })
+    Ok(BuiltTable { ds, model, desc, version })
+}
+
+/// NaN is involved: a NaN literal, or a float column of the predicate holds a NaN in live data.
+pub fn nan_involved(pred: &Pred, m: &Model) -> bool {
+    if pred.has_nan_literal() {
+        return true;
+    }
+    let mut cols = BTreeSet::new();
+    pred.columns(&mut cols);
+    cols.iter().any(|c| {
+        class_of(&m.cols[*c].ty) == Class::Float
+            && m.rows.values().any(|r| matches!(&r[*c], Cell::Float(f) if f.is_nan()))
+    })
+}
+
+pub fn legacy_stats_sig(pred: &Pred, m: &Model) -> String {
+    if nan_involved(pred, m) {
+        "legacy-stats-pruning-drops-or-adds-rows-float-nan".into()
+    } else {
+        "legacy-stats-pruning-changes-result".into()
+    }
 }
 
 fn all_cols(m: &Model) -> Vec<usize> {
@@ -317,6 +350,7 @@ pub fn run(args: &Args) -> i32 {
     let queries_per_table = args.tier.pick(24, 60);
     let max_rows = args.tier.pick(300, 1500);
     let next = AtomicU64::new(0);
+    let only_case: Option<u64> = args.extra.get("case").and_then(|s| s.parse().ok());
     let selftest_fired = AtomicU64::new(0);
     let selftest_total = AtomicU64::new(0);
     let versions = [
@@ -330,13 +364,19 @@ pub fn run(args: &Args) -> i32 {
 
     run_threads(threads, |_t, rt| {
         loop {
-            let case = next.fetch_add(1, AO::Relaxed);
+            let mut case = next.fetch_add(1, AO::Relaxed);
+            if let Some(c) = only_case {
+                if case > 0 {
+                    break;
+                }
+                case = c;
+            }
             if case >= max_cases || !report.time_left() {
                 break;
             }
             let mut rng = Rng::for_case(args.seed, case);
             rt.block_on(async {
-                let tbl = match build_table(&mut rng, "c16", &query_pool(), max_rows, &versions).await {
+                let tbl = match build_table(&mut rng, "c16", &query_pool(), max_rows, &versions, false).await {
                     Ok(t) => t,
                     Err(e) => {
                         report.harness_error(&format!("case {case}: table setup failed: {e}"));
@@ -480,7 +520,30 @@ pub fn run(args: &Args) -> i32 {
                                     continue;
                                 }
                                 if let Some(v) = judge(&out, &exp, m) {
-                                    let sig = if ki == 0 || v.sig.starts_with("limit-zero") { v.sig.clone() } else { format!("knobs-{}", v.sig) };
+                                    if only_case.is_some() {
+                                        let got: BTreeSet<i64> = out.ids().into_iter().collect();
+                                        let (extra, missing) = set_diff(&got, &exp.set);
+                                        eprintln!("DEBUG q{qi} `{sql}` knobs {} sig {}", knobs.describe(), v.sig);
+                                        for id in extra.iter().take(6) {
+                                            let k = out.ids().iter().position(|x| x == id).unwrap();
+                                            eprintln!("  extra id={id} model={} scan={}", vmon::table::render_row(&m.rows[id]), vmon::table::render_row(&out.rows[k]));
+                                        }
+                                        for id in missing.iter().take(6) {
+                                            eprintln!("  missing id={id} model={}", vmon::table::render_row(&m.rows[id]));
+                                        }
+                                    }
+                                    let mut sig = if ki == 0 || v.sig.starts_with("limit-zero") { v.sig.clone() } else { format!("knobs-{}", v.sig) };
+                                    // narrow class: on a legacy table the same query with use_stats(false)
+                                    // conforms => the deviation is caused by statistics-based pruning
+                                    if tbl.version == LanceFileVersion::Legacy && knobs.use_stats != Some(false) && !v.sig.starts_with("limit-zero") {
+                                        let mut k2 = knobs.clone();
+                                        k2.use_stats = Some(false);
+                                        if let Ok(out2) = run_scan(&tbl.ds, &q, &k2).await {
+                                            if judge(&out2, &exp, m).is_none() {
+                                                sig = legacy_stats_sig(&pred, m);
+                                            }
+                                        }
+                                    }
                                     report.violation(&sig, &v.what, witness(knobs, v.detail));
                                 }
                             }
@@ -515,6 +578,21 @@ pub fn run(args: &Args) -> i32 {
                         }
                     }
                     // count_rows
+                    // narrow class for count deviations on legacy tables: the count with use_stats(false) is right
+                    let legacy_count_sig = |base: &str, stats_off_ok: bool| -> String {
+                        if stats_off_ok {
+                            legacy_stats_sig(&pred, m)
+                        } else {
+                            base.to_string()
+                        }
+                    };
+                    let mut stats_off_count_ok = false;
+                    if executed && !selftest && tbl.version == LanceFileVersion::Legacy {
+                        let k2 = Knobs { use_stats: Some(false), ..Default::default() };
+                        if let Ok(n) = run_count(&tbl.ds, &q, &k2).await {
+                            stats_off_count_ok = n as usize == ids.len();
+                        }
+                    }
                     if executed && !selftest {
                         let ck = Knobs::random(&mut rng);
                         match run_count(&tbl.ds, &q, &ck).await {
@@ -522,7 +600,7 @@ pub fn run(args: &Args) -> i32 {
                                 report.count("count_rows_checked", 1);
                                 if n as usize != ids.len() {
                                     report.violation(
-                                        "count-rows-differs-from-result",
+                                        &legacy_count_sig("count-rows-differs-from-result", stats_off_count_ok && ck.use_stats != Some(false)),
                                         &format!("Scanner::count_rows = {n}, reference/result = {}", ids.len()),
                                         witness(&ck, json!({"count": n, "expected": ids.len()})),
                                     );
@@ -538,7 +616,7 @@ pub fn run(args: &Args) -> i32 {
                             Ok(n) => {
                                 if n != ids.len() {
                                     report.violation(
-                                        "dataset-count-rows-differs-from-result",
+                                        &legacy_count_sig("dataset-count-rows-differs-from-result", stats_off_count_ok),
                                         &format!("Dataset::count_rows = {n}, reference/result = {}", ids.len()),
                                         witness(&Knobs::default(), json!({"count": n, "expected": ids.len()})),
                                     );
